@@ -19,6 +19,7 @@ func C02(thorough bool, yield func(Program)) {
 		C02Multi(4, yield)
 	}
 	C02Events(yield)
+	C02Failed(yield)
 	maxD := 3
 	if thorough {
 		maxD = 5
